@@ -85,6 +85,7 @@ func countCompared(info *types.Info, body ast.Node, call *ast.CallExpr) (bool, s
 
 func runC06(c *Ctx) {
 	p := c.P
+	PackagesStateFree(c, "codec-state-free", pfShort)
 	pk := p.Pkg(pfShort)
 	if pk == nil {
 		c.Unresolved("bounded-copy-count", "package "+pfShort, 0, "not loaded")
